@@ -397,6 +397,16 @@ def run_mrq_policy(case, res):
 
 
 # ----------------------------------------------------------------- SAC
+def _diag_gaussian_logp(p, obs, a):
+    """Closed-form log-density of the tanh-Gaussian head (documented as the
+    diagonal Gaussian of its mean / std), independent of log_probability."""
+    import jax.numpy as jnp
+
+    mean, std = p(obs)
+    return jnp.sum(-jnp.log(std) - 0.5 * jnp.log(2 * jnp.pi)
+                   - 0.5 * ((a - mean) / std) ** 2, axis=-1)
+
+
 def _sac_parts(rng):
     import gymnasium as gym
 
@@ -432,7 +442,7 @@ def run_sac_actor(case, res):
 
     def ref(p, q):
         a = p.sample(obs, key)
-        lp = p.log_probability(obs, a)
+        lp = _diag_gaussian_logp(p, obs, a)
         sa = jnp.concatenate((obs, a), axis=-1)
         qv = jnp.minimum(q.q1(sa), q.q2(sa)).reshape(-1)
         return jnp.mean(alpha * lp - qv)
@@ -460,7 +470,7 @@ def run_temperature(case, res):
     obs = jnp.asarray(rng.normal(size=(N, 3)), dtype=jnp.float32)
     key = jax.random.key(int(rng.integers(1 << 20)))
     a = st.policy.sample(obs, key)
-    lp = np.asarray(st.policy.log_probability(obs, a), np.float64)
+    lp = np.asarray(_diag_gaussian_logp(st.policy, obs, a), np.float64)
     gap = float(np.mean(lp + ec.target_entropy))  # > 0: entropy below target
     before = float(np.asarray(ec._alpha()).reshape(-1)[0])
     pol_before = leaves(__import__("flax").nnx.state(st.policy))
